@@ -121,7 +121,8 @@ def run(ctx, model):
     counts: Dict[str, int] = {}
     for mod, cls, law in ((SER, "Series", "series"), (PAR, "Parallel", "parallel")):
         fi = model.fi(mod, f"{cls}._impedance")
-        methods = {n: m_.node for n, m_ in model.classes[f"{mod}:{cls}"].methods.items()}
+        methods = [{n: m_.node for n, m_ in model.classes[f"{mod}:{cls}"].methods.items()},
+                   {n: m_.node for n, m_ in model.classes["pyimpspec.circuit.base:Connection"].methods.items()}]
         g = _globals(ctx, mod)
         n_w = 0
         # empty connection
@@ -176,3 +177,75 @@ def run(ctx, model):
                 problems.append((f"{cls}._impedance", "law", f"children {list(zip(kinds, pretty))}: result {got if isinstance(got, str) else [str(x)[:40] for x in got]} instead of {want if isinstance(want, str) else [str(x)[:40] for x in want]}"))
         counts[cls] = n_w
     return problems, counts
+
+
+def run_evaluator(ctx, model) -> Tuple[List[str], int]:
+    """_calculate_impedances interpreted on frequency vectors of length 1..3 over {0, finite, inf, negative} and objects of
+    the three kinds (whose _impedance accepts only its kind's argument set and returns Z(f) entry by entry): finite
+    frequencies get Z(f_j) at their own position, 0 and inf the limit of that very frequency, a negative frequency is
+    refused before anything is evaluated, an infinite or NaN result is refused, an object of another kind is refused."""
+    fi = model.fi(BASE, "_calculate_impedances")
+    Zf, Lim = sp.Function("Z"), sp.Function("Lim")
+    problems: List[str] = []
+    n = 0
+    dom = (0.0, 2.0, 3.0, 5.0e-13, math.inf, -1.0)
+
+    def obj_of(kind, bad=None):
+        evaluated: List[Any] = []
+
+        def values(f):
+            evaluated.extend(list(f))
+            return NArr([(bad if (bad is not None and v == 2.0) else Zf(sp.Float(v))) for v in f])
+        if kind == "Container":
+            class C(Container):
+                def get_values(self): return {"p": 1.0}
+                def get_subcircuits(self): return {"X": None}
+                def _impedance(self, f, **kw):
+                    if set(kw) != {"p", "X"}:
+                        raise TypeError(f"container evaluated with {sorted(kw)}")
+                    return values(f)
+            return C(), evaluated
+        if kind == "Element":
+            class E(Element):
+                def get_values(self): return {"p": 1.0}
+                def _impedance(self, f, **kw):
+                    if set(kw) != {"p"}:
+                        raise TypeError(f"element evaluated with {sorted(kw)}")
+                    return values(f)
+            return E(), evaluated
+        if kind == "Connection":
+            class K(Connection):
+                def _impedance(self, f, **kw):
+                    if kw:
+                        raise TypeError(f"connection evaluated with {sorted(kw)}")
+                    return values(f)
+            return K(), evaluated
+        return object(), evaluated
+    cases = [(k, None, fs) for k in ("Container", "Element", "Connection") for m in (1, 2, 3) for fs in itertools.product(dom, repeat=m)]
+    cases += [(k, bad, (2.0, 3.0)) for k in ("Element", "Connection") for bad in (math.inf, math.nan)]
+    cases += [("other", None, (2.0,))]
+    for kind, bad, fs in cases:
+        n += 1
+        obj, evaluated = obj_of(kind, bad)
+        st = _globals(ctx, BASE)
+        st.update({"_is_floating_array": lambda x: True, "_cast_to_floating_array": lambda x: x, "_calculate_limit": lambda o, fv: (Lim(sp.oo) if math.isinf(fv) else Lim(sp.Float(fv))) if o is obj else sp.Symbol("limit_of_another_object"),
+                   "ComplexImpedance": complex, "type": type})
+        try:
+            out = Mini(st, max_steps=100000).call_function(fi.node, {"obj": obj, "f": NArr(list(fs))})
+            got: Any = list(out)
+        except InterpRaise as e:
+            got = e.kind
+        if kind == "other":
+            want: Any = "NotImplementedError"
+        elif any(v < 0 for v in fs):
+            want = "ValueError"
+        elif bad is not None:
+            want = "InfiniteImpedance" if math.isinf(bad) else "NotANumberImpedance"
+        else:
+            want = [(Lim(sp.oo) if math.isinf(v) else Lim(sp.Float(v))) if (v == 0.0 or math.isinf(v)) else Zf(sp.Float(v)) for v in fs]
+        ok = (got == want) if isinstance(want, str) else (isinstance(got, list) and len(got) == len(want) and all(_eq(a, b) for a, b in zip(got, want)))
+        if ok and want == "ValueError" and evaluated:
+            ok, got = False, f"ValueError after evaluating the object at {evaluated}"
+        if not ok and len(problems) < 3:
+            problems.append(f"_calculate_impedances({kind}, f={list(fs)}){' with an ' + str(bad) + ' value' if bad is not None else ''} gives {got if isinstance(got, str) else [str(x) for x in got]} instead of {want if isinstance(want, str) else [str(x) for x in want]}")
+    return problems, n
